@@ -1506,10 +1506,14 @@ class GroupBy:
                 and not is_dask_collection(slice)
             )
         ):
-            projection = set(by_).union(
-                {slice} if (np.isscalar(slice) or isinstance(slice, str)) else slice
+            selection = (
+                [slice] if (np.isscalar(slice) or isinstance(slice, str)) else slice
             )
-            projection = [c for c in obj.columns if c in projection]
+            # The selected columns keep the order of the selection, since not
+            # every aggregation selects them again (e.g. mean, var and std)
+            selection = [c for c in dict.fromkeys(selection) if c in obj.columns]
+            keys = set(by_).difference(selection)
+            projection = [c for c in obj.columns if c in keys] + selection
 
         self.obj = obj[projection] if projection is not None else obj
         self.sort = sort
